@@ -23,6 +23,10 @@ CLAIMS = {
          "Structural necessary conditions decided over all paths of MakeMove/UndoMove/MakeNullMove/UndoNullMove and their consumers: every field changed by a make is restored by its undo, from a token field that cannot overlap another, that was filled before the field was overwritten and is read back in the matching form; the hash history is pushed/popped exactly once per call; castling and promotion are mirrored. A violation implies a move whose make+undo does not return the identical position. Snapshot equality for concrete positions is not decided.",
          "Trusts go/ssa and go/types constant evaluation; token setters are assumed to be called with values inside the declared range (widths are checked against the type ranges).",
          "DESIGN.md §3 C03"),
+ "C02": ("condition-atom analysis over SSA (which From/To/moved/captured tests guard each state update), reaching-store ordering, constant geometry of castling squares, dominance of the UCI gate, narrow-counter bound check",
+         "Structural necessary conditions decided over all paths of MakeMove/NewCastles/applyMoves/parseUCIMove: each castling right is cleared under both From and To tests of its geometric corner; the en-passant square is recorded only under pawn ∧ double step ∧ CanEnPassant evaluated pre-move; the halfmove clock is reset exactly on pawn moves and captures (captured piece read before any piece moves); fullmove uses the pre-flip colour; captured piece, promotion piece and castling rook go to the geometrically right squares; UCI move lists pass the pseudo-legality gate on the persistent board. A violation implies a position/move whose successor differs from the rules. One genuine defect is recorded as a known finding (int8 halfmove clock wraps after 128 reversible plies).",
+         "Trusts go/ssa; does not decide CanEnPassant's pin logic or equality with the FIDE successor for concrete positions.",
+         "DESIGN.md §3 C02, §4 F-2"),
 }
 
 NOT_YET = "no static rule of DESIGN.md §3 for this property is built in this revision yet; not claimed"
